@@ -143,6 +143,24 @@ theorem load_spells_partial (E : Codec) (env : Env) (hsp : env.isSpace = pyIsSpa
       f.entries.map Lemmas.PoCatalog.content = cat.entries.map EntrySp.entry :=
   Lemmas.PoComments.parse_catalog E env hsp enc hE hdig hdec cat hv
 
+/-- the character U+0105 as the two bytes C4 85, in an environment that decodes exactly that -/
+def twoByteEnv : Env :=
+  { asciiEnv with decode := fun _ bs => if bs = [0xC4, 0x85] then .text [Char.ofNat 0x105] else
+      match decodeAscii bs with | some t => .text t | none => .ude }
+
+/-- **load_spells_refuted** for cuts INSIDE a character: the same two escaped bytes load as the character when they are on
+    one line and are a syntax error when a continuation cut separates them (polib unescapes, hence decodes, line by line;
+    a PO reader that concatenates first accepts both).  `load_spells_partial` covers cuts BETWEEN characters.
+    Recorded as an open finding (`C10:cut-inside-escaped-character`) and replayed on the real loader on every run. -/
+theorem load_spells_refuted :
+    (match parseLines twoByteEnv asciiName ["msgid \"\\xc4\\x85\"\n".toList, "msgstr \"\"\n".toList] with
+      | .ok f => decide (f.entries.map (·.msgid) = [[Char.ofNat 0x105]])
+      | .error _ => false) = true ∧
+    (match parseLines twoByteEnv asciiName ["msgid \"\\xc4\"\n".toList, "\"\\x85\"\n".toList, "msgstr \"\"\n".toList] with
+      | .ok _ => false
+      | .error e => decide (e = .syntax 1 .plain)) = true := by
+  constructor <;> decide
+
 /-- attribution: the comment fields of an entry are exactly what its own comment lines say, whatever surrounds it
     (a corollary of the shape of `EntrySp.entry`, spelled out for the reader) -/
 theorem comments_attributed (e : EntrySp) :
@@ -186,12 +204,30 @@ example : sampleCatalog.entries.map EntrySp.entry =
 
 example : sampleCatalog.headerText = "hdr".toList := by decide
 
-/-- `Codecs.open` yields every physical line up to the last one it does not hold back, in order (atypical comments
-    normalised), and drops the held-back lines after it (fix ed9c45c put the comment forms polib skips among them) -/
-theorem codecs_open_keeps_body (env : Env) (contents : Text) (b : List Text) (l : Text) (hl : ¬ Lemmas.PoPre.Held env l)
-    (tail : List Text) (ht : ∀ x ∈ tail, Lemmas.PoPre.Held env x) (hlines : physLines contents = b ++ l :: tail) :
-    preprocess env contents = (b ++ [l]).map normalise :=
-  Lemmas.PoPre.preprocess_body env contents b l hl tail ht hlines
+/-- the charset is taken from the FIRST physical line matching polib's pattern, whatever that line is: a comment that
+    mentions `Content-Type: … charset=KOI8-R` before the header makes the loader read a UTF-8 file as KOI8-R
+    (open finding `C10:charset-from-earlier-line`, reported by builder-c17; replayed on the real loader every run).
+    For files whose first matching line is the header's, detection is tied by the `po-detect` and end-to-end streams. -/
+theorem detect_first_match_refuted :
+    detectEncoding asciiEnv
+      ("# Content-Type: text/plain; charset=KOI8-R\nmsgid \"\"\nmsgstr \"Content-Type: text/plain; charset=UTF-8\\n\"\n".toList.map
+        fun c => UInt8.ofNat c.toNat) = ("KOI8-R".toList.map fun c => UInt8.ofNat c.toNat) := by
+  decide
+
+/-- the layers composed: if the file decodes to `contents`, its physical lines are `body ++ tail` where `Codecs.open` holds back
+    every line of `tail` but not the last line of `body`, and `body`, once atypical comments are normalised, is a spelling
+    `cat` — then `polib.pofile(path, encoding=enc)` yields the catalog.  (That a given file meets the three side conditions is
+    decidable but not derived from `CatalogSp` here: OUTSTANDING.) -/
+theorem load_file_partial (E : Codec) (env : Env) (hsp : env.isSpace = pyIsSpace) (hdig : env.isDigit = pyIsDigit)
+    (hdec : env.decimal = pyDecimal) (enc : Bytes) (hE : CodecOk env enc E) (cat : CatalogSp) (hv : cat.Valid E)
+    (file : Bytes) (contents : Text) (hfile : decodeFile env enc file = .ok contents)
+    (b : List Text) (l : Text) (tail : List Text) (hlines : physLines contents = b ++ l :: tail)
+    (hl : ¬ Lemmas.PoPre.Held env l) (ht : ∀ x ∈ tail, Lemmas.PoPre.Held env x) (hb : (b ++ [l]).map normalise = cat.lines) :
+    ∃ f, loadWith env enc file = .ok f ∧ f.header = cat.headerText ∧
+      f.entries.map Lemmas.PoCatalog.content = cat.entries.map EntrySp.entry := by
+  obtain ⟨f, h1, h2, h3⟩ := load_spells_partial E env hsp hdig hdec enc hE cat hv
+  refine ⟨f, ?_, h2, h3⟩
+  simp only [loadWith, hfile, Lemmas.PoPre.preprocess_body env contents b l hl tail ht hlines, hb, h1]
 
 /-- the physical lines of a file are its `\n`-terminated pieces: no other character ends a line (Debian #692283) -/
 theorem phys_lines (ls : List Text) (h : ∀ l ∈ ls, Lemmas.PoPre.IsLine l) : physLines ls.flatten = ls :=
@@ -203,6 +239,46 @@ theorem trailing_ignored_comment_witness :
       | .ok f => decide (f.entries.map (fun e => (e.msgid, e.msgstr)) = [(['a'], some ['b'])])
       | .error _ => false) = true := by
   decide
+
+/-- non-vacuity of `load_file_partial`: the sample catalog as a file, with an atypical header comment (`#hdr`) and
+    trailing comments that `Codecs.open` drops -/
+def sampleFile : Text :=
+  "\n#hdr\n#. x\n#: a.c:12 b\n#, fuzzy, c-format\nmsgid \"a\"\nmsgstr \"\"\n#.\n\"b\\n\"\n# trailing\n#~| msgid \"z\"\n".toList
+
+example : ∃ f, loadWith asciiEnv asciiName (sampleFile.map fun c => UInt8.ofNat c.toNat) = .ok f ∧ f.header = "hdr".toList ∧
+    f.entries.map Lemmas.PoCatalog.content = sampleCatalog.entries.map EntrySp.entry := by
+  have hv : sampleCatalog.Valid asciiCodec := by
+    refine ⟨?_, ?_, ?_, ?_, by simp [sampleCatalog], ?_, ?_⟩
+    · simp [sampleCatalog, Noise.Valid]; decide
+    · simp [sampleCatalog, HeaderLine.Valid, endsNonSpace, allSpace]; decide
+    · simp [sampleCatalog]
+    · intro e he
+      simp [sampleCatalog] at he; subst he
+      refine ⟨?_, ⟨Or.inl rfl, by simp [sampleMsg], ?_, ?_⟩⟩
+      · simp [CommentSp.Valid, blankChar, endsNonSpace, allSpace, refsValid, RefItem.Valid, Blank, FlagPiece.Valid, FlagItem, flagBody,
+          joinComma, FlagPiece.render]
+        decide
+      · simp [sampleMsg, StrSp.Valid, Seg.Valid, Blank, Choice.Valid, rawOk, okSeq]; decide
+      · simp [sampleMsg, StrSp.Valid, Seg.Valid, Blank, Choice.Valid, rawOk, okSeq, okAdj, Noise.Valid]; decide
+    · intro e he; simp [sampleCatalog] at he; subst he; simp [CommentSp.isTc]
+    · intro e he; simp [sampleCatalog] at he; subst he; rfl
+  have hfile : decodeFile asciiEnv asciiName (sampleFile.map fun c => UInt8.ofNat c.toNat) = .ok sampleFile := by
+    have : decodeAscii (sampleFile.map fun c => UInt8.ofNat c.toNat) = some sampleFile := by decide
+    simp [decodeFile, asciiEnv, this]
+  exact load_file_partial asciiCodec asciiEnv rfl rfl rfl asciiName (asciiCodecOk _) sampleCatalog hv _ sampleFile hfile
+    ["\n".toList, "#hdr\n".toList, "#. x\n".toList, "#: a.c:12 b\n".toList, "#, fuzzy, c-format\n".toList,
+     "msgid \"a\"\n".toList, "msgstr \"\"\n".toList, "#.\n".toList] "\"b\\n\"\n".toList
+    ["# trailing\n".toList, "#~| msgid \"z\"\n".toList] (by decide)
+    (by unfold Lemmas.PoPre.Held; decide)
+    (by intro x hx; simp at hx; rcases hx with rfl | rfl <;> (unfold Lemmas.PoPre.Held; decide))
+    (by decide)
+
+/-- `Codecs.open` yields every physical line up to the last one it does not hold back, in order (atypical comments
+    normalised), and drops the held-back lines after it (fix ed9c45c put the comment forms polib skips among them) -/
+theorem codecs_open_keeps_body (env : Env) (contents : Text) (b : List Text) (l : Text) (hl : ¬ Lemmas.PoPre.Held env l)
+    (tail : List Text) (ht : ∀ x ∈ tail, Lemmas.PoPre.Held env x) (hlines : physLines contents = b ++ l :: tail) :
+    preprocess env contents = (b ++ [l]).map normalise :=
+  Lemmas.PoPre.preprocess_body env contents b l hl tail ht hlines
 
 /-- `translated()` as patched: not obsolete, not fuzzy, and `msgstr` or some plural form non-empty -/
 theorem translated_iff (e : Entry) :
